@@ -4,7 +4,7 @@ from __future__ import annotations
 
 from typing import Dict, List
 
-from dst.engines.e1_diff import E1Core, E1Persist, E1Layout, E2Actuators, E2Clamp, E7Heap
+from dst.engines.e1_diff import E1Core, E1Persist, E1Layout, E1Types, E2Actuators, E2Clamp, E2Meta, E7Heap
 from dst.engines.e2_shapes import E2Shapes
 from dst.engines.e3_phases import E3Phases
 from dst.engines.e4_inputs import E4Inputs
@@ -27,6 +27,8 @@ _E4 = E4Inputs()
 _E1_PERSIST = E1Persist()
 _E7 = E7Heap()
 _E1_LAYOUT = E1Layout()
+_E1_TYPES = E1Types()
+_E2_META = E2Meta()
 _E8_ACT = E8Actuators()
 _E8_HELP = E8Helpers()
 _E9_TARGET = E9Target()
@@ -36,6 +38,8 @@ _E9_HOSTILE = E9Hostile()
 
 PLANS: Dict[str, List[dict]] = {
     "C01": [{"engine": _E1_CORE, "quick": 2400, "thorough": 40000, "quick_wall_s": 150, "thorough_wall_s": 1500}],
+    "C02": [{"engine": _E1_TYPES, "quick": 2200, "thorough": 40000, "quick_wall_s": 120, "thorough_wall_s": 1500}],
+    "C03": [{"engine": _E2_META, "quick": 1500, "thorough": 25000, "quick_wall_s": 120, "thorough_wall_s": 1500}],
     "C04": [
         {"engine": _E2_ACT, "quick": 1800, "thorough": 30000, "quick_wall_s": 100, "thorough_wall_s": 1200},
         {"engine": _E2_CLAMP, "quick": 800, "thorough": 10000, "quick_wall_s": 60, "thorough_wall_s": 600},
